@@ -94,6 +94,10 @@ pub struct Profile {
     pub nonfinite_permille: u64,
     /// per-operation tick ceiling (0 = none)
     pub tick_limit: u64,
+    /// see `Gen::legal_bias_permille`
+    pub legal_bias_permille: u64,
+    /// per-mille probability that the run starts from D+1..D+2 vertices (deep flip walks on tiny complexes)
+    pub small_start_permille: u64,
 }
 
 impl Default for Profile {
@@ -111,6 +115,8 @@ impl Default for Profile {
             ctor_fault_permille: 0,
             always_construct: false,
             nonfinite_permille: 0,
+            legal_bias_permille: 0,
+            small_start_permille: 0,
             tick_limit: 0,
         }
     }
@@ -125,6 +131,24 @@ fn record_outcome(stats: &mut RunStats, op: &Op, out: &Outcome) {
     stats.tuples.insert(format!("{}|{}|{}", op.kind(), out.class(), fired));
     stats.ticks += out.ticks;
     stats.executions += 1;
+    // "rare condition was hit" probes derived from the work clock and the outcome
+    for (kind, n) in &out.tick_kinds {
+        if matches!(kind.as_str(), "locate.scan" | "insert.cavity_iter" | "insert.facet_repair_iter" | "insert.hull_repair_iter" | "rebuild.attempt" | "bulk.shuffle_attempt") {
+            *stats.probes.entry(format!("reached:{kind}")).or_insert(0) += 1;
+        }
+        if kind == "repair.attempt" && *n >= 2 {
+            *stats.probes.entry("reached:repair.attempt>=2".into()).or_insert(0) += 1;
+        }
+        if kind == "insert.attempt" && *n >= 2 {
+            *stats.probes.entry("reached:insert.perturbation_retry".into()).or_insert(0) += 1;
+        }
+    }
+    if out.used_heuristic {
+        *stats.probes.entry("reached:heuristic_rebuild_used".into()).or_insert(0) += 1;
+    }
+    if out.kind == OutKind::Skipped {
+        *stats.probes.entry(format!("reached:skipped:{}", out.tag)).or_insert(0) += 1;
+    }
 }
 
 /// Execute a (possibly multi-object) op against the world.
@@ -223,6 +247,7 @@ pub fn run<K: SimKernel<D>, const D: usize>(
     let mut cfg = Rng::sub(rs, "cfg", 0);
     let mut gener = Gen::new(rs, D, &header.family, profile.thorough);
     gener.nonfinite_permille = profile.nonfinite_permille;
+    gener.legal_bias_permille = profile.legal_bias_permille;
     if let Some(tune) = profile.tune {
         let mut r = Rng::sub(rs, "tune", 0);
         tune(&mut gener.weights, &mut r, D);
@@ -248,6 +273,11 @@ pub fn run<K: SimKernel<D>, const D: usize>(
     let tg = *cfg.pick(GUARANTEES);
     let maxv = gener.max_vertices;
     let n0 = if !profile.always_construct && cfg.chance(1, 4) { 0 } else { D + 1 + cfg.usize_below(maxv.saturating_sub(D + 1).max(1)) };
+    let n0 = if profile.small_start_permille > 0 && Rng::sub(rs, "small-start", 0).below(1000) < profile.small_start_permille {
+        D + 1 + Rng::sub(rs, "small-start", 1).usize_below(2)
+    } else {
+        n0
+    };
     if n0 == 0 {
         prologue.push(Op::Empty { obj: 0, tg: tg.to_string() });
     } else {
